@@ -3,61 +3,7 @@ import os, subprocess
 import vlib
 from vlib import Undecided
 
-M = 1 << 32
-
-
-def sweep(ctx, n, depth):
-    """All 2^32 raw words presented to the REAL draw as the depth-th word; returns trace file or None."""
-    drv = ctx.build_harness()
-    shards = vlib.NCPU
-    if n > (1 << 26):
-        shards = 1  # wide histogram kept in one process
-    step = M // shards
-    hs = []
-    procs = []
-    for k in range(shards):
-        h = ctx.path("hist-%d-%d-%d" % (n, depth, k))
-        hs.append(h)
-        lo, hi = k * step, (M if k == shards - 1 else (k + 1) * step)
-        procs.append(subprocess.Popen([drv, "sweep", "-n", str(n), "-lo", str(lo), "-hi", str(hi), "-depth", str(depth), "-hist", h],
-                                      cwd=ctx.scratch, env=ctx.env, stdout=subprocess.PIPE, stderr=subprocess.PIPE, text=True))
-    rcs = []
-    for p in procs:
-        out, err = p.communicate(timeout=3000)
-        rcs.append((p.returncode, err))
-    if all(rc == 4 for rc, _ in rcs):
-        return None  # nothing is ever rejected for this bound: there is no continuation
-    if any(rc != 0 for rc, _ in rcs):
-        raise Undecided("sweep n=%d failed: %s" % (n, [e[-300:] for rc, e in rcs if rc != 0][:1]))
-    out = ctx.path("sweep-%d-%d.ndjson" % (n, depth))
-    ctx.drv("sweepmerge", "-out", out, *hs)
-    for h in hs:
-        os.remove(h)
-    ctx.evaluations += M
-    return out
-
-
-def decide_by_sweep(ctx, n, depth, why):
-    f = sweep(ctx, n, depth)
-    if f is None:
-        return True
-    v = ctx.validate("DrawTrace", f, tag="sweep-%d-%d" % (n, depth))
-    ev = vlib.nth_line(f, 1)
-    ctx.cover.setdefault("sweeps", []).append(dict(n=n, depth=depth, accepted=ev["acceptedDec"], per_result_min=ev["minDec"],
-                                                   per_result_max=ev["maxDec"], reason=why))
-    flat = True
-    for b in v["bad"]:
-        if b["why"].startswith("prop:"):
-            flat = False
-            ctx.violation("bound n=%d, raw word at depth %d of a draw: %s (per-result counts min=%s max=%s, accepted=%s of 2^32)"
-                          % (n, depth, b["why"][5:], ev["minDec"], ev["maxDec"], ev["acceptedDec"]),
-                          dict(kind="sweep", n=n, depth=depth, summary={k: ev[k] for k in ("nDec", "minDec", "maxDec", "acceptedDec")},
-                               cmd="spgdrv sweep -n %d -depth %d over all 2^32 words" % (n, depth)))
-        elif b["why"].startswith("shape:"):
-            ctx.drift("sweep n=%d depth=%d: %s" % (n, depth, b["why"][6:]))
-        else:
-            raise Undecided("sweep n=%d: %s" % (n, b["why"]))
-    return flat
+from checks.drawfam import M, sweep, decide_by_sweep
 
 
 def run(ctx):
